@@ -5,11 +5,11 @@ observed bytes never change, for every iovec handle of every `Woodpile.Iovec.WOp
 of other handles, writes by other objects (`read_n` into a swapped arena, another iovec's copies and
 backfills).
 
-Property theorems only.  Vocabulary (`GW`, `absW`, `PW`, `Rel`, `AllInv`, `OkRun`, `_partial`): see the
-header of `Props/C03W.lean`.  `World.visible w v` is what every consumer-side view of the model exposes
+Property theorems only.  Vocabulary (`GW`, `absW`, `PW`, `Rel`, `AllInv` / `W.IovInv`, `OkRun`): see the header
+of `Props/C03W.lean`.  `AllInv w` holds in every reachable world (`Props/C03W.reachable_inv_w`).  `World.visible w v` is what every consumer-side view of the model exposes
 (the bytes of the slices `stable_prefix` returns), as in `Props/C04.lean`.
 
-The immutability statement (`observed_bytes_immutable_w_partial`): along ANY history from a state `g` to a
+The immutability statement (`observed_bytes_immutable_w`): along ANY history from a state `g` to a
 state `g'` in which handle `i` is not reset (`clear i`, `take i` — which moves the contents to a fresh
 handle —, `drop i`), every byte of `ghost i ++ visible i` of `g` — indeed every byte cell of `i`'s pipe,
 visible or not — is still there in `g'`, at the same position counted from `i`'s last clear, with the same
@@ -33,7 +33,7 @@ theorem stable_prefix_has_no_hole_w {g : GW} (hall : AllInv g.w) {i : Nat} {v : 
   have hi := hall i v hv
   have hc : (absW g i).cells = (g.w.visible v).map Cell.byte ++
       mkCells v.backrefs (v.consumedSize + (g.w.visible v).length) (g.w.flat (v.slices.drop v.stableN)) := by
-    rw [absW_live g i v hv]; exact absCells_visible hi
+    rw [absW_live g i v hv]; exact W.absCells_visible hi
   refine ⟨⟨_, hc⟩, ?_⟩
   rw [Pipe.stable_of_cells (absW g i) _ _ hc]
   exact List.prefix_append _ _
@@ -42,19 +42,18 @@ theorem stable_prefix_has_no_hole_w {g : GW} (hall : AllInv g.w) {i : Nat} {v : 
 theorem ok_iff_no_pending_w {g : GW} (hall : AllInv g.w) {i : Nat} {v : Iov} (hv : g.w.iov i = some v) :
     v.hasPending = (absW g i).pending := by
   rw [absW_live g i v hv]
-  exact hasPending_eq_pending (hall i v hv)
+  exact W.hasPending_eq_pending (hall i v hv)
 
-/-- `AllInv` — the hypothesis of the two theorems above — holds after every history that satisfies the side
-conditions (`Props/C03W.reachable_refines_w_partial`). -/
-theorem reachable_allInv_partial (pol : Policy) (tun : Tuning) (ops : List WOp) (g : GW) (rs : List WRet)
-    (hok : (GW.init pol tun).OkRun ops) (h : (GW.init pol tun).run ops = some (g, rs)) : AllInv g.w :=
-  (grun_init pol tun ops g rs hok h).1
+/-- `AllInv` — the hypothesis of the two theorems above — holds in every reachable world. -/
+theorem reachable_allInv {w : World} (h : Reachable w) : AllInv w := by
+  obtain ⟨caps, hg⟩ := h.exists_caps
+  exact hg.allInv
 
 /-- Once every placeholder of handle `i` has been backfilled — after any history of the whole world, hence
 in any order, through whichever handle held the pipe at the time — every buffered byte of `i` is
 consumable: the stable prefix is the whole pipe content, `total_size` bytes long, and consumed ++ visible
 is `i`'s whole ledger, with the backfilled values in place. -/
-theorem all_filled_unblocks_w_partial (pol : Policy) (tun : Tuning) (ops : List WOp) (g : GW) (rs : List WRet)
+theorem all_filled_unblocks_w (pol : Policy) (tun : Tuning) (ops : List WOp) (g : GW) (rs : List WRet)
     (hok : (GW.init pol tun).OkRun ops) (h : (GW.init pol tun).run ops = some (g, rs)) (i : Nat) (v : Iov)
     (hv : g.w.iov i = some v) (hp : v.hasPending = false) :
     g.w.visible v = (absW g i).bytes ∧ (absW g i).cells = (g.w.visible v).map Cell.byte ∧
@@ -62,7 +61,7 @@ theorem all_filled_unblocks_w_partial (pol : Policy) (tun : Tuning) (ops : List 
     (LW.init.run ops rs).led i = (g.ghost i ++ g.w.visible v).map Cell.byte := by
   obtain ⟨hall, hrel, hokr, _⟩ := grun_init pol tun ops g rs hok h
   have hi := hall i v hv
-  obtain ⟨h1, h2⟩ := visible_all_of_no_pending hi hp
+  obtain ⟨h1, h2⟩ := W.visible_all_of_no_pending hi hp
   have hcells : (absW g i).cells = (g.w.visible v).map Cell.byte := by rw [absW_live g i v hv]; exact h2
   refine ⟨?_, hcells, ?_, ?_⟩
   · unfold Pipe.bytes
@@ -83,13 +82,14 @@ theorem all_filled_unblocks_w_partial (pol : Policy) (tun : Tuning) (ops : List 
 
 /-- A byte, once observed, never changes — whatever happens to the other objects of the world.  See the
 file header. -/
-theorem observed_bytes_immutable_w_partial {g g' : GW} {caps : Nat → Nat} (hg : GReach g.w caps) (hall : AllInv g.w)
+theorem observed_bytes_immutable_w {g g' : GW} {caps : Nat → Nat} (hg : GReach g.w caps)
     (ops : List WOp) (rs : List WRet) (hok : g.OkRun ops) (h : g.run ops = some (g', rs)) (i : Nat) (v v' : Iov)
     (hv : g.w.iov i = some v) (hv' : g'.w.iov i = some v') (hnr : ∀ op ∈ ops, ¬ op.resets i) :
     (∀ (j : Nat) (b : UInt8), (pipeHistory (absW g i))[j]? = some (Cell.byte b) →
       (pipeHistory (absW g' i))[j]? = some (Cell.byte b)) ∧
     ∀ j : Nat, j < (g.ghost i).length + (g.w.visible v).length →
       (pipeHistory (absW g' i))[j]? = ((g.ghost i ++ g.w.visible v)[j]?).map Cell.byte := by
+  have hall := hg.allInv
   obtain ⟨_, hrel', hokr, _⟩ := grun_rel ops g g' rs g.pw caps hg hall (rel_self g) hok h
   have hgen : ∀ (j : Nat) (b : UInt8), (pipeHistory (absW g i))[j]? = some (Cell.byte b) →
       (pipeHistory (absW g' i))[j]? = some (Cell.byte b) := by
@@ -102,7 +102,7 @@ theorem observed_bytes_immutable_w_partial {g g' : GW} {caps : Nat → Nat} (hg 
   have hhist : pipeHistory (absW g i) = (g.ghost i ++ g.w.visible v).map Cell.byte ++
       mkCells v.backrefs (v.consumedSize + (g.w.visible v).length) (g.w.flat (v.slices.drop v.stableN)) := by
     rw [absW_live g i v hv]
-    simp only [pipeHistory, absCells_visible hi, List.map_append, List.append_assoc]
+    simp only [pipeHistory, W.absCells_visible hi, List.map_append, List.append_assoc]
   have hlt : j < (g.ghost i ++ g.w.visible v).length := by simpa using hj
   have hcell : (pipeHistory (absW g i))[j]? = some (Cell.byte (g.ghost i ++ g.w.visible v)[j]) := by
     rw [hhist, List.getElem?_append_left (by simpa using hlt)]
